@@ -92,6 +92,14 @@ def map_call_to_procedure_body(call, caller, callee=None):
             _sum = sym.Sum((_sum, local_lbound, v))
             return simplify(_sum)
 
+        def _dummy_lbound(dim):
+            # The lower bound of an assumed-shape dummy argument is 1 unless declared otherwise;
+            # the bounds of a deferred-shape (allocatable or pointer) dummy are those of the argument
+            lower = getattr(dim, 'lower', sym.IntLiteral(1))
+            if lower is None and not (var.type.allocatable or var.type.pointer):
+                return sym.IntLiteral(1)
+            return lower
+
         new_dimensions = list(val.dimensions)
 
         indices = [index for index, dim in enumerate(val.dimensions) if isinstance(dim, sym.Range)]
@@ -100,7 +108,7 @@ def map_call_to_procedure_body(call, caller, callee=None):
         var_ubounds = [getattr(dim, 'upper', dim) for dim in var.shape]
         if var.shape and val.shape:
             decl_lbounds = [(getattr(val.shape[i], 'lower', sym.IntLiteral(1)),
-                             getattr(dim, 'lower', sym.IntLiteral(1))) for i, dim in enumerate(var.shape)]
+                             _dummy_lbound(dim)) for i, dim in enumerate(var.shape)]
 
             for i, (lb_val, lb_var) in enumerate(decl_lbounds):
                 # we can't simply check if lb_val here as that would return a false negative if lb_val == 0
@@ -109,12 +117,13 @@ def map_call_to_procedure_body(call, caller, callee=None):
 
         for (index, dim), lbdiff in zip(enumerate(var.dimensions), lbounds_diff):
             # if the argument contains an array range, we must map the bounds accordingly
-            if isinstance(val.dimensions[index], sym.Range) and (lower := val.dimensions[index].lower):
+            # we can't simply check the lower bound here as that would return a false negative if it is 0
+            if isinstance(val.dimensions[index], sym.Range) and (lower := val.dimensions[index].lower) is not None:
                 lower = simplify(sym.Sum((lower, lbdiff)))
                 decl_lbound = decl_lbounds[index][0]
                 if isinstance(dim, sym.Range):
-                    _lower = dim.lower or decl_lbounds[index][1]
-                    _upper = dim.upper or var_ubounds[index]
+                    _lower = dim.lower if dim.lower is not None else decl_lbounds[index][1]
+                    _upper = dim.upper if dim.upper is not None else var_ubounds[index]
 
                     _lower = _offset_lbound(lower, decl_lbound, _lower)
                     _upper = _offset_lbound(lower, decl_lbound, _upper)
